@@ -305,6 +305,33 @@ impl Prop for C15 {
                 ctx.class("followed-by-other-language");
             }
         }
+        // what precedes does not change how a file's lines are coloured either: a plain-text file
+        // (or a name without language: the default language is plain text) holding the same kind of
+        // lines, alone and after this section
+        if t.chance(1, 3) {
+            let txt = t.ps(&["notes.txt", "docs/TODO.txt", "data.zzzunknown", "AUTHORS"]).to_string();
+            let ht = gen_hunk(t, pool, 3, 3);
+            let alone = match run(&cfg1, &bytes_of(&section(&txt, vec![ht.clone()])), ctx) {
+                Ok(o) => o,
+                Err(f) => return Verdict::Fail(f),
+            };
+            let mut both = bytes_of(&section(&name1, hunks.clone()));
+            both.extend_from_slice(&bytes_of(&section(&txt, vec![ht])));
+            let after = match run(&cfg1, &both, ctx) {
+                Ok(o) => o,
+                Err(f) => return Verdict::Fail(f),
+            };
+            let (xa, xb) = (content_rows(&alone), content_rows(&after));
+            let tail = if xb.len() >= xa.len() { &xb[xb.len() - xa.len()..] } else { &xb[..] };
+            if xb.len() < xa.len() || xa.iter().zip(tail.iter()).any(|(a, b)| a.cells != b.cells) {
+                let i = xa.iter().zip(tail.iter()).position(|(a, b)| a.cells != b.cells).unwrap_or(0);
+                return Verdict::Fail(
+                    Failure::new("C15:previous-section-changes-colouring", format!("`{}`: hunk row {} `{}` is coloured differently when the section of `{}` precedes it than on its own", txt, i, xa.get(i).map(|r| r.text()).unwrap_or_default(), name1))
+                        .with(json!({"case": exec::case_json(&cfg1, &both)})),
+                );
+            }
+            ctx.class("plain-text-file-after-other-language");
+        }
         // a name without language falls back to the configured default language
         if t.chance(1, 3) && lang != "Makefile" {
             let unknown = format!("{}.zzzunknown", name1.rsplit_once('.').map(|x| x.0).unwrap_or("f"));
